@@ -299,6 +299,7 @@ func checkC14(c *Check) {
 	}
 	// what a check writes into its answer reaches only the user agent of that check
 	responseFreshPerCheck(c, "C14.R2", R)
+	secretDataStaysSecret(c, "C14.R1")
 	// the OK writer forwards what the matched filter configures: the handler is the filter's own
 	if pc := processInvoke(P, R); c.Anchor("C14.R2", "Handler.Process invocation in Check", pc != nil) {
 		handlerBuiltPerCheck(c, "C14.R2", R.CheckEntry, pc)
@@ -348,6 +349,56 @@ func checkC14(c *Check) {
 		if hs.Val != nil {
 			sinks = append(sinks, sink{hs.Val, "v3.HeaderValue.Value", hs.At, hs.Fn, inOK})
 		}
+	}
+	// the tokens of an OK answer go to the upstream request only: OkHttpResponse.Headers. The other lists of the OK
+	// response (response_headers_to_add is sent downstream, to the user agent) never receive the Headers list, an
+	// option taken from it, or a header built from a secret
+	nOther := 0
+	for _, fn := range P.Funcs {
+		if !isOwnPath(pkgPathOf(fn)) {
+			continue
+		}
+		for _, b := range fn.Blocks {
+			for _, ins := range b.Instrs {
+				st, isS := ins.(*ssa.Store)
+				if !isS {
+					continue
+				}
+				fa, isF := st.Addr.(*ssa.FieldAddr)
+				if !isF || typeID(derefType(fa.X.Type())) != idOkHTTP {
+					continue
+				}
+				f := fieldOf(fa.X.Type(), fa.Field)
+				if f == nil || f.Name() == "Headers" || !f.Exported() {
+					continue
+				}
+				nOther++
+				bad := ""
+				for d := range dataDeps(st.Val) {
+					if base, lf, isL := fieldLoad(d); isL && lf != nil && lf.Name() == "Headers" && typeID(derefType(base.Type())) == idOkHTTP {
+						bad = "the upstream header list (OkHttpResponse.Headers) flows into it"
+					}
+					if cl, isC := d.(*ssa.Call); isC && isCallTo(cl, idOkHTTP+".GetHeaders") {
+						bad = "the upstream header list (GetHeaders()) flows into it"
+					}
+					if hfa, isH := d.(*ssa.FieldAddr); isH {
+						id := fieldAddrID(hfa)
+						if id == pkgEnvoyCore+".HeaderValue.Value" || id == pkgEnvoyCore+".HeaderValue.RawValue" {
+							for _, hs := range storesTo(hfa) {
+								if t := taintOf(P, hs.Val, 4); len(t) > 0 {
+									bad = fmt.Sprintf("a header carrying %v flows into it", taintNames(t))
+								}
+							}
+						}
+					}
+				}
+				c.Obl(bad == "", "C14.R2", "ok-other-lists/"+fnKey(fn)+"/"+f.Name(), P.Pos(st.Pos()), "OkHttpResponse."+f.Name()+" receives no token-bearing header",
+					"OkHttpResponse."+f.Name()+" is not the upstream header list, yet "+bad+": the tokens are returned to the user agent")
+			}
+		}
+	}
+	if nOther == 0 {
+		c.Pass("C14.R2", "ok-other-lists", "-", "own code writes no list of the OK response other than Headers")
 	}
 	nDeny := 0
 	errFlows := 0
@@ -449,4 +500,51 @@ func firstDesc(t map[string]ssa.Value) string {
 		return descDepth(t[k], 3)
 	}
 	return ""
+}
+
+// secretDataStaysSecret: what the secret controller reads from a Kubernetes Secret's data is stored only as
+// the client secret of the filters that reference it. Any other field of the configuration (client id,
+// URIs, scopes, cookie prefix …) ends up in redirects, cookies or logs that reach the user agent.
+func secretDataStaysSecret(c *Check, rule string) {
+	P := c.P
+	fromSecretData := func(v ssa.Value) bool {
+		for d := range dataDeps(v) {
+			lk, ok := d.(*ssa.Lookup)
+			if !ok {
+				continue
+			}
+			if base, f, isL := fieldLoad(resolveCell(stripConv(lk.X))); isL && f != nil && (f.Name() == "Data" || f.Name() == "StringData") &&
+				typeID(derefType(base.Type())) == "k8s.io/api/core/v1.Secret" {
+				return true
+			}
+		}
+		return false
+	}
+	n, nOK := 0, 0
+	for _, fn := range P.Funcs {
+		if !isOwnPath(pkgPathOf(fn)) {
+			continue
+		}
+		for _, b := range fn.Blocks {
+			for _, ins := range b.Instrs {
+				st, isS := ins.(*ssa.Store)
+				if !isS {
+					continue
+				}
+				fa, isF := st.Addr.(*ssa.FieldAddr)
+				if !isF || !fromSecretData(st.Val) {
+					continue
+				}
+				n++
+				id := fieldAddrID(fa)
+				ok := strings.HasSuffix(id, ".OIDCConfig_ClientSecret.ClientSecret") || strings.HasSuffix(id, ".OIDCConfig.ClientSecretConfig")
+				if ok {
+					nOK++
+				}
+				c.Obl(ok, rule, "secret-data-sink/"+fnKey(fn)+"/"+shortID(id), P.Pos(st.Pos()), "Secret data is stored as the client secret",
+					"data read from a Kubernetes Secret is stored into "+shortID(id)+": that setting is sent to the user agent (redirect parameters, cookie names) or logged")
+			}
+		}
+	}
+	c.Obl(nOK >= 1, rule, "secret-data-sinks", "-", fmt.Sprintf("%d stores of Secret data, all into the client secret", n), "no store of Secret data into the client secret found (anchor lost)")
 }
